@@ -3,7 +3,7 @@
    runner and the in-Coq `vm_compute` cross-check. *)
 From Coq Require Import List ZArith Bool Lia.
 Import ListNotations.
-Require Import DV.Common.Base DV.Core.Diagram DV.Core.Rewriting DV.Core.Perm DV.Core.Rigid DV.Core.Functor.
+Require Import DV.Common.Base DV.Core.Diagram DV.Core.Rewriting DV.Core.Foliate DV.Core.Perm DV.Core.Rigid DV.Core.Functor.
 Open Scope Z_scope.
 
 Inductive prog :=
@@ -26,6 +26,8 @@ Inductive prog :=
 | PCaps (l r : ty)
 | PTranspose (p : prog) (left : bool)
 | PFunctor (obs : list (Z * ty)) (ars : arlist) (p : prog)
+| PFoliate (p : prog)
+| PFoliation (p : prog)
 with arlist :=
 | ANil
 | ACons (b : box) (img : prog) (rest : arlist).
@@ -68,6 +70,8 @@ Fixpoint run (p : prog) : res value :=
   | PTranspose p l => ret (do a <- rd p; dtranspose a l)
   | PFunctor obs ars p =>
       ret (do a <- rd p; do m <- run_ars ars; f_apply (F obs m) a)
+  | PFoliate p => do a <- rd p; do r <- foliate a; Ok (VL (fst r))
+  | PFoliation p => do a <- rd p; do r <- foliate a; Ok (VL (snd r))
   end
 with run_ars (a : arlist) : res (list (box * diagram)) :=
   match a with
@@ -130,6 +134,8 @@ Fixpoint dec_prog (fuel : nat) (s : sexp) : res prog :=
     | L [I 17; p; l] => do p' <- dp p; do l' <- sx_bool l; Ok (PTranspose p' l')
     | L [I 18; obs; L ars; p] =>
         do o' <- dec_obmap obs; do a' <- dars ars; do p' <- dp p; Ok (PFunctor o' a' p')
+    | L [I 19; p] => do p' <- dp p; Ok (PFoliate p')
+    | L [I 20; p] => do p' <- dp p; Ok (PFoliation p')
     | _ => Err BadProgram
     end
   end.
